@@ -27,6 +27,7 @@ type Case struct {
 	Msg     string   `json:"message"`
 	Hash    string   `json:"event_log_hash"`
 	Desc    string   `json:"plan"`
+	Classes []string `json:"all_classes,omitempty"`
 	LogTail []string `json:"log_tail"`
 	Steps   int      `json:"steps"`
 	// filled by the shrinker
@@ -82,13 +83,16 @@ func runCase(t *testing.T, f *Family, tier string, seed uint64, plan, sched *cor
 	} else {
 		f.Run(t, rc)
 	}
+	if f.Post != nil {
+		f.Post(rc)
+	}
 	return rc
 }
 
 func toCase(f *Family, tier string, rc *core.RunCtx) Case {
 	return Case{Prop: f.ID, Tier: tier, Seed: rc.Seed, Plan: rc.Plan.Rec(),
 		Sched: rc.Sched.Rec(), Class: rc.Class, Msg: rc.Msg, Hash: rc.Hash(),
-		Desc: rc.Desc, LogTail: tail(rc.Log, 200), Steps: rc.Steps}
+		Desc: rc.Desc, LogTail: tail(rc.Log, 200), Steps: rc.Steps, Classes: rc.Classes}
 }
 
 // TestWorker is the entry point of every worker process.
